@@ -392,14 +392,22 @@ Definition chk (v : value) (leaves : list (list string * value)) : bool :=
         from aspire import Aspire
         for nsname in NS:
             for width in (None, "float32", "float64"):
-                for variant in range(2):
+                for variant in range(3):
                     tgt = sd.Target(2, prior="box")
                     cfgkw = dict(parameters=["x_0", "x_1"], prior_bounds=tgt.bounds_dict(),
                                  periodic_parameters=["x_0"] if variant else None, bounded_to_unbounded=bool(variant),
                                  bounded_transform="probit" if variant else "logit", eps=1e-5 if variant else 1e-6)
+                    if variant == 2:
+                        # names as physicists write them (a space, a Greek letter), bounds given as a list and as an array, an EMPTY list
+                        # of periodic parameters, flow options with a tuple, a string and a None
+                        lo_, hi_ = tgt.box_bounds()
+                        nm = ["Λ_1", "mass 1"]
+                        cfgkw.update(parameters=nm, periodic_parameters=[],
+                                     prior_bounds={nm[1]: [float(lo_[1]), float(hi_[1])], nm[0]: np.array([float(lo_[0]), float(hi_[0])])})
                     a = Aspire(log_likelihood=tgt.log_likelihood, log_prior=tgt.log_prior, dims=2, flow=sd.FakeFlow(2), xp=NS[nsname],
                                dtype=None if width is None else nsutil.native_dtype(nsname, width), flow_backend="fake",
-                               **cfgkw, **({"hidden": 4, "opts": {"k": [1, 2]}} if variant else {}))
+                               **cfgkw, **({"hidden": 4, "opts": {"k": [1, 2]}} if variant == 1 else
+                                           {"hidden": 4, "opts": {"k": (1, 2), "act": "tanh", "norm": None}} if variant == 2 else {}))
                     path = os.path.join(root, f"cfg_{nsname}_{width}_{variant}.h5")
                     case = {"ns": nsname, "dtype": width, "variant": variant}
                     ctx.count(("config", nsname, width, variant), True, kind="config-rebuild")
